@@ -297,6 +297,16 @@ class Mixed:
         self.live.add(h)
 
     def op_dump(self, h):
+        # (the delimiter / comment tags are compared where the property in hand talks about them: what a write uses - C07 -, what
+        # read-only calls leave alone - C10; how a merge result inherits them is nobody's property)
+        def conv(ev, root, h=h):
+            e = {"e": "dump", "h": h, "isnull": ev["st"] is None, "st": dump_st(ev, self.comments) or {"groups": [], "ents": []},
+                 "cmp_comments": self.comments, "path": codes(self.rel(ev["st"]["path"], root)) if ev["st"] else []}
+            if self.ops is None or "tags" in self.ops:
+                e["tags"] = [ev["st"]["dtag"], ev["st"]["ctag"]] if ev["st"] else [0, 0]
+            return [e]
+        self.add("dumpx %d" % h, conv)
+        return
         self.add("dumpx %d" % h, lambda ev, root, h=h: [{"e": "dump", "h": h, "isnull": ev["st"] is None, "st": dump_st(ev, self.comments) or {"groups": [], "ents": []},
                                                           "tags": [ev["st"]["dtag"], ev["st"]["ctag"]] if ev["st"] else [0, 0],
                                                           "cmp_comments": self.comments,
@@ -443,7 +453,7 @@ def tagless_scenarios(rnd, n):
     by a full dump with the tags."""
     hs = []
     for i in range(n):
-        m = Mixed(rnd, 800 + i, ops={"read", "set", "write", "merge", "get", "listings"})
+        m = Mixed(rnd, 800 + i, ops={"read", "set", "write", "merge", "get", "listings", "tags"})
         m.script.append("mkdir %s" % hx(m.R + "/out"))
         m.conv.append(None)
         lines = ["# about a", "a=1 # trailing", "[S]", "# about b", "b=2"][:rnd.randint(2, 5)]
